@@ -5,7 +5,7 @@ value-level.  Decided here: the structural necessary conditions of DESIGN.md
 section 5, C01 (D1..D5) plus the layout-contiguity and block-addressing
 conditions found while reading the code."""
 import copy
-import struct as _struct
+import struct as _struct   # calcsize on folded constant formats only
 
 from sa.h import *
 
@@ -324,13 +324,11 @@ def run_formulas(ctx, r):
     idx = ctx.idx
     wmap, done, capcall = writer_symbols(idx, r)
     r.site(done, capcall, "symbol map " + ", ".join("%s=%s" % (v, k) for k, v in sorted(wmap.items(), key=lambda x: x[1])))
-    inv = {v: k for k, v in wmap.items()}
     w = idx.func(ENC + "._got_all_encoding_parameters")
     ws = Sym(idx, w, expand_attrs=False)
     seg_attr = writer_seg_attr(idx)
     wmap = dict(wmap)
     wmap[seg_attr] = "SEG"
-    K_attr, SIZE_attr = inv["K"], inv["SIZE"]
 
     # ---- reader
     rd = idx.func(NODE + "._calculate_sizes")
@@ -364,11 +362,18 @@ def run_formulas(ctx, r):
                               "%s is set from the %r entry of _calculate_sizes" % (tp, n.ast.value.slice.value))
 
     rets = rd.cfg().find(is_return)
-    if len(rets) != 1 or not isinstance(rets[0].ast.value, ast.Dict):
+    if len(rets) != 1:
+        raise AnchorVanished("_calculate_sizes no longer has one return")
+    rnode, rdict = rets[0], rets[0].ast.value
+    if isinstance(rdict, ast.Name):       # dict literal bound to a local first
+        ds = rs.rd.get(rnode.id, {}).get(rdict.id, frozenset())
+        if len(ds) == 1 and C.PARAM_DEF not in ds:
+            rnode = rd.cfg().nodes[next(iter(ds))]
+            rdict = rs.fnorm._def_value(rnode, rdict.id)
+    if not isinstance(rdict, ast.Dict):
         raise AnchorVanished("_calculate_sizes no longer returns one dict literal")
-    rnode = rets[0]
     rvals = {}
-    for k_, v_ in zip(rnode.ast.value.keys, rnode.ast.value.values):
+    for k_, v_ in zip(rdict.keys, rdict.values):
         if isinstance(k_, ast.Constant):
             rvals[k_.value] = rs.expand(rnode, v_)
     for need in ("tail_segment_size", "tail_segment_padded", "num_segments", "block_size", "tail_block_size"):
@@ -423,7 +428,6 @@ def run_formulas(ctx, r):
               % nf(w_seg_arg, wmap))
     agree("block size", w_block, rvals["block_size"], w, c_main)
     agree("tail block size", w_tailblock, rvals["tail_block_size"], w, c_tail)
-    # UEB num_segments/size are the same attributes
     return wmap, rmap
 
 
@@ -682,13 +686,11 @@ def run_layout_table(ctx, r):
         except NotConstant as ex:
             raise AnalysisError("_satisfy_offsets: table format not foldable: %s" % ex)
         r.require(f == ">" + code * len(names), so, so.loc(up[0]), "offset table is unpacked with %r for %d names" % (f, len(names)))
-    size_e = nf(Sym(idx, so).expand(node_of(so, up[0]), ast.Name(id="offset_table_size", ctx=ast.Load()))) \
-        if "offset_table_size" in {x.id for x in func_own_nodes(so) if isinstance(x, ast.Name)} else None
     pops = [c for c in calls_in_func(so, "pop") if len(c.args) == 2]
     for c in pops:
         n = node_of(so, c)
         s = Sym(idx, so)
-        a0, a1 = nf(s.expand(n, c.args[0])), N(so).poly(s.expand(n, c.args[1]))
+        a1 = N(so).poly(s.expand(n, c.args[1]))
         r.require(a1 == Poly.atom("self._fieldsize") * Poly.const(len(names)), so, so.loc(c),
                   "the offset table is read as %s bytes, not %d fields" % (a1, len(names)))
     if not pops:
@@ -802,7 +804,6 @@ def run_contiguity(ctx, r):
             if len(offs.get(k, ())) != 1:
                 raise AnalysisError("%s: offset of %r is not a single symbolic value: %s" % (clsq, k, offs.get(k)))
         off = {k: next(iter(offs[k])) for k in names}
-        table = next(iter(L["tables"]))
         puts = put_methods(idx, ci)
         if len(puts) < 6:
             raise AnchorVanished("%s: fewer than 6 _queue_write sites" % clsq)
